@@ -8,5 +8,18 @@ S=$(mktemp -d /tmp/mutcheck_XXXX)
 (cd $S && git init -q . 2>/dev/null; git apply --whitespace=nowarn $PATCH 2>/dev/null || patch -p1 -s < $PATCH) || { echo "PATCH DOES NOT APPLY"; rm -rf $S; exit 2; }
 for P in "$@"; do
   PYVC_REPO=$S PYVC_OUT=$S/out /verif/check $P 2>&1 | grep -E "VIOLATION|KNOWN|rc=|CRASH" | cut -c1-220 | head -8
+  python3 - $S/out/evidence/$P.json <<'PY'
+import json, sys
+try:
+    j = json.load(open(sys.argv[1]))
+    seen = set()
+    for u in j['coverage'].get('undecided') or []:
+        line = 'UNDECIDED %s: %s' % (u.get('fn'), str(u.get('reason'))[:160])
+        if line not in seen:
+            seen.add(line)
+            print(line)
+except Exception as e:
+    print('UNDECIDED-INFO-UNAVAILABLE', e)
+PY
 done
 rm -rf $S
